@@ -14,7 +14,7 @@
        resolution (Props/C02.v), control flow and scoping (Props/C08.v), modifiers (Props/C06.v),
        expression values (Props/C07.v) and external gates (Props/C18.v). *)
 From Coq Require Import List Bool String.
-From Verif Require Import Aexp BGate PyVal Ast State GatesGen GateLib Unroll Spec ExternalProofs Process Depth DepthModel FixProofs SpecFlat LoopProofs BroadcastProofs GateDefProofs.
+From Verif Require Import Aexp BGate PyVal Ast State GatesGen GateLib Unroll Spec ExternalProofs Process Depth DepthModel FixProofs SpecFlat ParamProofs LoopProofs BroadcastProofs ModUnrollProofs GateDefProofs.
 Import ListNotations.
 
 Theorem C01_lowering_preserves_process
@@ -113,8 +113,9 @@ Print Assumptions C01_model_and_reference_semantics_agree_on_flat_programs.
 
 (* (4) INLINING OF GATE DEFINITIONS, as a theorem about whole programs (Lang/GateDefProofs.v).  `gexpand env0 [] p = Some (q, evs)`
    is a computable judgement on programs whose top level holds includes, register declarations, GATE DEFINITIONS
-       gate g(p1, ...) a, b, ... { library gates on the formal qubits, each parameter a literal or a formal }
-   under names that are neither defined already nor names of the basis gates, CALLS  g(literals) r[i], r[j], ...;  of defined
+       gate g(p1, ...) a, b, ... { basis gates on the formal qubits, possibly under inv / pow(k), their parameters closed
+                                   expressions over literals, constants and the formal parameters }
+   under names that are neither defined already nor names of the basis gates, CALLS  g(closed expressions) r[i], r[j], ...;  of defined
    gates on pairwise distinct bits inside their registers, and everything Props/C02.v and Props/C08.v admit (flat operations,
    loops, whole-register operations).  q is the program without the definitions and with every call replaced by the body
    of its definition, formal qubits replaced by the actual bits and formal parameters by the actual values, in order.
@@ -130,14 +131,15 @@ Proof. exact (programs_with_gate_definitions_unroll_to_their_expansion fuel p q 
 Print Assumptions C01_gate_calls_are_replaced_by_instantiated_bodies.
 
 (* one call, in any state that knows the definition and is not expanding the gate already *)
-Theorem C01_one_gate_call check_only f env s name gd vs bs out :
+Theorem C01_one_gate_call check_only f env s name gd args vs bs out evs :
   Regs env s -> sget name (gates s) = Some gd -> smem name (gstack s) = false ->
+  cvals args = Some vs ->
   List.length vs = List.length (g_params gd) -> List.length bs = List.length (g_qubits gd) ->
   forallb (in_reg (e_q env)) bs = true -> distinctb [] bs = true ->
-  call_out env gd name vs bs = Some out ->
-  exists s', visit_stmt check_only [] (S (S f)) (SGate [] name (map ELit vs) (map qarg_of bs)) s
-             = Ok ((if check_only then [] else out), s') /\ DE s s' /\ Dstep s s' (evs_of out).
-Proof. exact (custom_call_fix check_only f env s name gd vs bs out). Qed.
+  call_out env gd name vs bs = Some (out, evs) ->
+  exists s', visit_stmt check_only [] (S (S f)) (SGate [] name args (map qarg_of bs)) s
+             = Ok ((if check_only then [] else out), s') /\ DE s s' /\ Dstep s s' evs.
+Proof. exact (custom_call_fix check_only f env s name gd args vs bs out evs). Qed.
 Print Assumptions C01_one_gate_call.
 
 From Coq Require Import ZArith.
